@@ -11,7 +11,7 @@
     [select_*] is what a query scans ([FieldSelector::select_for_segment], regenerated
     from the Rust text): all zones of the segment ([all]) when the strategy does not serve
     the operator, else the pruner's answer, else the fallback for a [None].
-    State after the fix round (f801704 selector fallback, db7c428 pre-1970 instants). *)
+    State after the fix rounds (f801704 / 01eee7e selector fallback, db7c428 pre-1970 instants). *)
 From Coq Require Import NArith ZArith List.
 From Snel Require Import Base.Bytes Model.ZoneSel Model.EnumBitmap Model.Temporal Model.XorKey.
 From Snel Require Import Proofs.EnumBitmapProofs Proofs.TemporalProofs Proofs.XorKeyProofs.
@@ -52,15 +52,12 @@ Theorem C08b_enum_neq_undeclared_sound : forall ix variants lit all zid,
 Proof. exact enum_neq_undeclared_sound. Qed.
 Print Assumptions C08b_enum_neq_undeclared_sound.
 
-(** FALSE of the code: an operator other than [=] / [!=] on an enum column returns no zone
-    (known class EnumRangeOp; NOT repaired by f801704, whose enum arm falls back for [!=] only). *)
-Theorem C08b_enum_range_op_refuted :
-  exists variants zones ix zid vals lit all,
-    EnumBitmap.build_all variants zones = Some ix /\ In (zid, vals) zones /\ In lit variants /\
-    (exists v, In v vals /\ In v variants /\ EnumBitmap.row_matches OGt v lit = true) /\
-    ~ In zid (select_enum (Some ix) all OGt lit).
-Proof. exact enum_range_op_refuted. Qed.
-Print Assumptions C08b_enum_range_op_refuted.
+(** NOW TRUE (01eee7e; was C08b_enum_range_op_refuted): an operator other than [=] / [!=] on
+    an enum column scans every zone of the segment, with or without a loadable index. *)
+Theorem C08b_enum_unserved_op_all_zones : forall ix all op lit,
+  op <> OEq -> op <> ONeq -> select_enum ix all op lit = all.
+Proof. exact enum_unserved_op_all_zones. Qed.
+Print Assumptions C08b_enum_unserved_op_all_zones.
 
 (** [rows_per_zone] is truncated to 16 bits: with a first zone of 65536 rows every
     bitmap is empty and the first declared value of any zone makes the builder panic
@@ -80,11 +77,11 @@ Theorem C08b_enum_build_ok : forall variants z0 vals0 rest,
 Proof. exact enum_build_ok. Qed.
 Print Assumptions C08b_enum_build_ok.
 
-(** The strongest true statement, STRONGER than before the fix round: for columns that hold
-    only declared variants (STORE validation, C06), [=] and [!=] are sound for EVERY literal,
-    declared or not; the only known class left is an operator other than [=] / [!=]. *)
-Theorem C08b_enum_outside_known : forall variants zones ix zid vals op lit all,
-  enum_known op = false ->
+(** The strongest true statement — no known class is left at selector level (was
+    C08b_enum_outside_known with the exclusion [enum_known]): for columns that hold only
+    declared variants (STORE validation, C06), EVERY operator is sound for EVERY literal,
+    declared or not. *)
+Theorem C08b_enum_sound_all_operators : forall variants zones ix zid vals op lit all,
   EnumBitmap.build_all variants zones = Some ix ->
   NoDup (map fst zones) ->
   In (zid, vals) zones ->
@@ -92,8 +89,8 @@ Theorem C08b_enum_outside_known : forall variants zones ix zid vals op lit all,
   (forall v, In v vals -> In v variants) ->
   (exists v, In v vals /\ EnumBitmap.row_matches op v lit = true) ->
   In zid (select_enum (Some ix) all op lit).
-Proof. exact enum_outside_known. Qed.
-Print Assumptions C08b_enum_outside_known.
+Proof. exact enum_sound_all_operators. Qed.
+Print Assumptions C08b_enum_sound_all_operators.
 
 (** ** Temporal calendar + per-zone index *)
 Open Scope Z_scope.
